@@ -1,3 +1,88 @@
-/-! # C18 — property theorems (stub: nothing stated yet) -/
+import SR.Proofs.SemObjects
+/-!
+# C18 — reference objects and the register harness yield well-formed, faithful histories
+
+Property theorems only. Models: `SR/Sem/SeqSpec.lean`, `SR/Sem/Objects.lean` (register.rs,
+write_once_register.rs, vec.rs with their overridden `is_valid_step`), `SR/Sem/RegisterClient.lean`
+(actor/register.rs, actor/write_once_register.rs clients + hooks + the delivery rule of actor/model.rs).
+
+Reading of "including the resulting object state": required when the step is accepted. After a
+rejected step the optimised implementations leave the object in a state that differs from what
+`invoke`-then-compare would leave (`C18_rejected_state_differs`); `is_valid_history` short-circuits
+and both testers drop the object after a rejection, so that state is unobservable through the crate.
+-/
 namespace SR.C18
+open SR.Sem
+
+section objects
+variable {V : Type} [DecidableEq V]
+
+/-! ## `is_valid_step` = invoke and compare (verdict) -/
+theorem C18_step_verdict_register (s : V) (op : RegOp V) (r : RegRet V) :
+    ((register V).isValidStep s op r).1 = decide (((register V).invoke s op).2 = r) := by
+  have := (register_lawful V).verdict s op r
+  rw [Bool.eq_iff_iff]; simpa using this
+
+theorem C18_step_verdict_woRegister (s : Option V) (op : WOOp V) (r : WORet V) :
+    ((woRegister V).isValidStep s op r).1 = decide (((woRegister V).invoke s op).2 = r) := by
+  have := (woRegister_lawful V).verdict s op r
+  rw [Bool.eq_iff_iff]; simpa using this
+
+theorem C18_step_verdict_vec (s : List V) (op : VecOp V) (r : VecRet V) :
+    ((vec V).isValidStep s op r).1 = decide (((vec V).invoke s op).2 = r) := by
+  have := (vec_lawful V).verdict s op r
+  rw [Bool.eq_iff_iff]; simpa using this
+
+/-! ## an accepted step leaves the object `invoke` leaves -/
+theorem C18_step_state_register (s : V) (op : RegOp V) (r : RegRet V)
+    (h : ((register V).isValidStep s op r).1 = true) :
+    ((register V).isValidStep s op r).2 = ((register V).invoke s op).1 := (register_lawful V).state s op r h
+
+theorem C18_step_state_woRegister (s : Option V) (op : WOOp V) (r : WORet V)
+    (h : ((woRegister V).isValidStep s op r).1 = true) :
+    ((woRegister V).isValidStep s op r).2 = ((woRegister V).invoke s op).1 := (woRegister_lawful V).state s op r h
+
+theorem C18_step_state_vec (s : List V) (op : VecOp V) (r : VecRet V)
+    (h : ((vec V).isValidStep s op r).1 = true) :
+    ((vec V).isValidStep s op r).2 = ((vec V).invoke s op).1 := (vec_lawful V).state s op r h
+
+/-! ## `is_valid_history` accepts exactly the sequences obtained by invoking from the initial object
+(and then leaves the object those invocations leave) -/
+theorem C18_history_register (s₀ : V) (l : List (RegOp V × RegRet V)) :
+    (register V).isValidHistory s₀ l = true ↔ l = (register V).trace s₀ (l.map (·.1)) :=
+  (register_lawful V).validHistory_iff s₀ l
+
+theorem C18_history_woRegister (s₀ : Option V) (l : List (WOOp V × WORet V)) :
+    (woRegister V).isValidHistory s₀ l = true ↔ l = (woRegister V).trace s₀ (l.map (·.1)) :=
+  (woRegister_lawful V).validHistory_iff s₀ l
+
+theorem C18_history_vec (s₀ : List V) (l : List (VecOp V × VecRet V)) :
+    (vec V).isValidHistory s₀ l = true ↔ l = (vec V).trace s₀ (l.map (·.1)) :=
+  (vec_lawful V).validHistory_iff s₀ l
+
+/-- the same for every spec that keeps the trait's default `is_valid_step`, and for every spec whose
+    override satisfies the contract (`Lawful` = the two `C18_step_*` clauses) -/
+theorem C18_history {S Op Ret : Type} (spec : SeqSpec S Op Ret) (h : spec.Lawful) (s₀ : S) (l : List (Op × Ret)) :
+    (spec.isValidHistory s₀ l = true ↔ l = spec.trace s₀ (l.map (·.1))) ∧
+    (spec.isValidHistory s₀ l = true → (spec.validHistory s₀ l).2 = spec.run s₀ (l.map (·.1))) :=
+  ⟨h.validHistory_iff s₀ l, h.validHistory_state s₀ l⟩
+
+theorem C18_default_step_lawful {S Op Ret : Type} [DecidableEq Ret] (inv : S → Op → S × Ret) :
+    (SeqSpec.ofInvoke inv).Lawful := SeqSpec.ofInvoke_lawful inv
+
+end objects
+
+/-! ## after a *rejected* step the optimised overrides and invoke-then-compare leave different objects
+(informational; unobservable through `is_valid_history` and the testers) -/
+theorem C18_rejected_state_differs :
+    ((register Nat).isValidStep 0 (.write 1) (.readOk 0)).1 = false ∧
+    ((register Nat).isValidStep 0 (.write 1) (.readOk 0)).2 ≠ ((register Nat).invoke 0 (.write 1)).1 := by
+  decide
+
+/-! non-vacuity -/
+example : (vec Nat).isValidHistory [] [(.push 10, .pushOk), (.pop, .popOk (some 10)), (.len, .lenOk 0)] = true := by decide
+example : (vec Nat).isValidHistory [] [(.push 10, .pushOk), (.pop, .popOk none)] = false := by decide
+example : (woRegister Nat).isValidHistory none [(.write 1, .writeOk), (.write 2, .writeFail), (.read, .readOk (some 1))] = true := by decide
+example : ((vec Nat).isValidStep [1, 2] .pop (.popOk (some 1))) = (false, [1]) := by decide
+
 end SR.C18
